@@ -77,8 +77,8 @@ def declare_node_side(spec):
     M = spec.macros
     SRV = "obj:Server"
     add(spec, "Node.kill_server", types={"srvr": SRV},
-        requires=["has(self, 'servers') and srvr in self.servers", "is_fin(srvr.start_date) and is_fin(srvr.busy_time)",
-                  "is_fin(srvr.shift_end)", INV("float_clock(self)"), "is_fin(self.now)"],
+        requires=["has(self, 'servers') and srvr in self.servers", "is_fin(srvr.start_date)",
+                  "is_fin(srvr.shift_end)", INV("float_clock(self)")],
         modifies=["total_time@srvr", "$seq@self.overtime", "$seq@self.all_servers_busy", "$seq@self.all_servers_total", "$seq@self.servers"],
         ensures=[
             ("C04+C12:a-leaving-server's-total-time-runs-from-its-start-until-now", "srvr.total_time == self.now - srvr.start_date"),
@@ -113,14 +113,37 @@ def declare_node_side(spec):
         ]},
         props=["C12", "C04"])
 
+
+
+def declare_drafts(spec):
+    """NOT wired into build_spec: contracts drafted but not yet verified (see DESIGN.md A.7).  take_servers_off_duty[overtime]:
+    the postconditions and most loop obligations discharge; five loop-step / frame obligations still time out."""
+    M = spec.macros
     # ---- a shift ends (C12): non-pre-emptive: busy servers finish their customer as overtime (marked off duty), idle ones leave;
     # pre-emptive: every service in progress is interrupted now and every server leaves
     M["srv_dates_ok"] = ("lambda n: forall_in(n.servers, lambda s: is_fin(s.start_date) and is_fin(s.busy_time) "
                          "and (s.shift_end is False or is_fin(s.shift_end)))")
     add(spec, "Node.take_servers_off_duty", types={"preemption": "orfalse:str"},
         requires=["has(self, 'servers')", INV("float_clock(self)"), "is_fin(self.now)", INV("srv_dates_ok(self)"),
-                  ("C12:a-shift-change-is-the-node's-own-event", "self.next_event_date == self.now")],
+                  ("C12:a-shift-change-is-the-node's-own-event", "self.next_event_date == self.now"),
+                  "len(self.overtime) >= 0 and len(self.all_servers_busy) >= 0 and len(self.all_servers_total) >= 0 and len(self.servers) >= 0",
+                  INV("nodup(S(self.servers))")],
         allocates=True, raises=[("ValueError", "True")],
+        loop_invariants={
+                     0: ["forall_int(lambda j: implies(0 <= j and j < _i, _it[j].shift_end == self.now and implies(_it[j].busy, _it[j].offduty) "
+                         "and (_it[j].busy or _it[j] in to_delete)), trigger=lambda j: _it[j])",
+                         "forall_in(to_delete, lambda s: s in self.servers and not s.busy and s.shift_end == self.now)",
+                         "S(self.servers) == old(S(self.servers))", "srv_dates_ok(self)",
+                         "forall_in(to_delete, lambda s: index_of(_it, s) < _i)",
+                         "nodup(S(to_delete))"],
+                     2: ["forall_int(lambda j: implies(_i <= j and j < len(_it), as_obj(_it[j], 'Server') in self.servers), trigger=lambda j: _it[j])",
+                         "forall_in(to_delete, lambda s: s in old(S(self.servers)) and s.shift_end == self.now and is_fin(s.start_date) and is_fin(s.busy_time) and not s.busy)",
+                         "nodup(S(to_delete))", "S(to_delete) == _it", "nodup(S(self.servers))",
+                         "forall_in(self.servers, lambda s: s in old(S(self.servers)) and (s.busy or s in to_delete))",
+                         "forall_in(old(S(self.servers)), lambda s: implies(oldf(s, 'busy'), s in self.servers))",
+                         "forall_int(lambda j: implies(0 <= j and j < _i, not (as_obj(_it[j], 'Server') in self.servers)), trigger=lambda j: _it[j])",
+                         "srv_dates_ok(self)"],
+        },
         cases=[
             dict(name="overtime", when="preemption is False",
                  modifies=["shift_end@S(self.servers)", "offduty@S(self.servers)", "total_time@S(self.servers)", "$seq@self.servers",
@@ -131,13 +154,7 @@ def declare_node_side(spec):
                      ("C12:idle-servers-leave-at-once",
                       "forall_in(self.servers, lambda s: s.busy and s in old(S(self.servers)))"),
                      ("C12:no-service-is-touched", "same('cust', 'busy', 'service_start_date', 'service_end_date', 'number_in_service')"),
-                 ],
-                 loop_invariants={
-                     0: ["forall_int(lambda j: implies(0 <= j and j < _i, _it[j].shift_end == self.now and implies(_it[j].busy, _it[j].offduty) "
-                         "and (_it[j].busy or _it[j] in to_delete)), trigger=lambda j: _it[j])",
-                         "forall_in(to_delete, lambda s: s in self.servers and not s.busy and s.shift_end == self.now)",
-                         "nodup(S(to_delete))" ],
-                 }),
+                 ]),
             dict(name="preemptive", when="not (preemption is False)", modifies=["*"], ensures=[]),
         ],
         props=["C12"])
